@@ -257,6 +257,8 @@ def gen_history(rnd, n_conns=None, n_events=40, known_bias=0.8, chatter=0.1, dia
             tags = [t if t is None else t.replace('c', 'conn_') for t in tags]
     conns = [Conn(rnd, t, rnd.random() < 0.3) for t in tags]
     t_us = rnd.randrange(0, 10 ** 9) * 1000 + rnd.randrange(1000)
+    if rnd.random() < 0.15:
+        t_us = rnd.choice([0, 0, 1, 999, 1000])      # a log that starts at (or next to) time zero
     items = []
     known = sorted(proto.keys())
     burst = rnd.choice([0, 0, 3, 6, 10, 15])       # a start-up burst logged within one clock tick (relative time 0.0)
